@@ -8,7 +8,7 @@ import re
 from vf.gen.url import render
 from vf.ref.urlread import dec
 
-PUNY = {"télérama": "xn--tlrama-bvab", "bücher": "xn--bcher-kva", "例え": "xn--r8jz45g"}
+PUNY = {"télérama": "xn--tlrama-bvab", "bücher": "xn--bcher-kva", "例え": "xn--r8jz45g", "münchen": "xn--mnchen-3ya", "пример": "xn--e1afmkfd", "рф": "xn--p1ai"}
 PUNY_REV = {v: k for k, v in PUNY.items()}
 UNRESERVED = set("abcdefghijklmnopqrstuvwxyzABCDEFGHIJKLMNOPQRSTUVWXYZ0123456789-._~")
 SUBDELIM_DATA = set("!$'()*,;")
@@ -155,10 +155,11 @@ def t_punycode(c, rng):
     changed = False
     for lab in labels:
         low = lab.lower()
-        if low in PUNY:
+        # each label toggles on its own: hosts mixing punycode and Unicode labels are spellings of the same host too
+        if low in PUNY and rng.random() < 0.7:
             out.append(PUNY[low])
             changed = True
-        elif low in PUNY_REV:
+        elif low in PUNY_REV and rng.random() < 0.7:
             out.append(PUNY_REV[low])
             changed = True
         else:
